@@ -523,13 +523,19 @@ def thread_flags(case, obs):
 
 
 def known_finding(case, obs):
-    """instance predicates (structural, per thread): the thread's invocation tree violates NoClash (some invocation
-    has a transitively nested invocation with the same (file name, function name)), resp. NoStack (some invocation
+    """instance predicates (structural, per thread): a context is pending (by frame identity) on top of the stack while
+    ANOTHER invocation with the same (file name, function name) gets an event that completes it by name
+    (th.name_confusion — this implies that the tree violates NoClash; recursion in which every level opens its own
+    context is not an instance and is judged normally), resp. NoStack (some invocation
     reaches an own exception event / the end of its body with both its call-opened and a line-opened context
     pending).  The case is an instance only if every violated thread is one."""
     if 'raised' in obs or 'ref' not in obs:
         return None
-    flags = thread_flags(case, obs)
+    flags = {}
+    for t in threads_of(case):
+        events = obs['ref'].get(t, [])
+        op = opens_of(case, events, t)
+        flags[t] = (th.name_confusion(events, op), th.stacked(events, op))
     bad = [t for t in threads_of(case) if oracle_thread(case, obs, t)]
     if not bad or not obs['host_same'] or not obs['trace_kept']:
         return None
